@@ -32,7 +32,7 @@ decreasing_by
   all_goals first
     | omega
     | (have := Doc.sizes_le_sizesF ‹List Doc›; omega)
-    | (apply Nat.lt_of_le_of_lt (Nat.add_le_add_right (size_pick _ _ _ _) _); omega)
+    | (exact Nat.add_lt_add_right (size_pick _ _ _ _) _)
 
 theorem fitsE_iff_scan (left : Int) (stk : List Pair) :
     fitsE left stk = true ↔ 0 ≤ left ∧ ∃ n, scanE stk = some n ∧ (n : Int) ≤ left := by
